@@ -195,7 +195,10 @@ def c_output(obs):
 def enc(prog, obs):
     if obs.get("crashed") or obs.get("failed") is None:
         return None
-    return c_program(prog), c_output(obs)
+    try:
+        return c_program(prog), c_output(obs)
+    except (ValueError, KeyError, AssertionError):
+        return None         # the observation names something the program does not contain (a tag, an element): the oracles judge it
 
 
 COQ = {"header": HEADER, "in_ty": "cfgdata * list feature", "out_ty": "run_output",
